@@ -1,5 +1,5 @@
 import Driver.Util
-import Verif.Model.Ring
+import Verif.Model.RingHeap
 /-! Model driver for suite c20 (op language: see /verif/go/harness/suite_c20.go). -/
 namespace Driver.Ring
 open Verif.Ring Driver
@@ -7,30 +7,42 @@ open Verif.Ring Driver
 /-- `logging.BufferSize`; the suite's `cap` op compares it with the constant in the Go source -/
 def bufferSize : Nat := 1024
 
-abbrev St := State String
+/-- the heap-level ring (entries are objects, `GetLogs` returns pointers) and the pointer lists returned by the
+`getlogs` ops so far -/
+structure St where
+  h : HState String
+  snaps : Array (List Nat) := #[]
 
 def fmt (ms : List String) : String :=
   if ms.isEmpty then "ok 0 -" else "ok " ++ toString ms.length ++ " " ++ ",".intercalate ms
 
-def logn (s : St) (k : Nat) : Nat → Nat → St
+def logn (s : HState String) (k : Nat) : Nat → Nat → HState String
   | 0, _ => s
-  | c + 1, start => logn (write s k ("m" ++ toString start)) k c (start + 1)
+  | c + 1, start => logn (writeH s k ("m" ++ toString start)) k c (start + 1)
 
 def step (s : St) (w : List String) : St × String :=
   match w with
-  | ["cap"] => (s, "ok " ++ toString s.slots.length)
+  | ["cap"] => (s, "ok " ++ toString s.h.ring.slots.length)
   | ["with", k] =>
     let k := k.toNat!
-    if k < s.cores.length then (derive s k, "ok " ++ toString s.cores.length) else (s, "bad-op")
+    if k < s.h.ring.cores.length then
+      ({ s with h := stepH s.h (.derive k) }, "ok " ++ toString s.h.ring.cores.length)
+    else (s, "bad-op")
   | ["log", k, m] =>
     let k := k.toNat!
-    if k < s.cores.length then (write s k m, "ok") else (s, "bad-op")
+    if k < s.h.ring.cores.length then ({ s with h := writeH s.h k m }, "ok") else (s, "bad-op")
   | ["logn", k, c, st] =>
     let k := k.toNat!
-    if k < s.cores.length then (logn s k c.toNat! st.toNat!, "ok") else (s, "bad-op")
-  | ["getlogs"] => (s, fmt (getLogs s))
-  | ["writelogs"] => (s, fmt (getLogs s))
+    if k < s.h.ring.cores.length then ({ s with h := logn s.h k c.toNat! st.toNat! }, "ok") else (s, "bad-op")
+  | ["getlogs"] =>
+    let refs := getLogsH s.h
+    ({ s with snaps := s.snaps.push refs }, fmt (deref s.h refs))
+  | ["writelogs"] => (s, fmt (deref s.h (getLogsH s.h)))
+  | ["reread", k] =>
+    match s.snaps[k.toNat!]? with
+    | some refs => (s, fmt (deref s.h refs))
+    | none => (s, "bad-op")
   | _ => (s, "bad-op")
 
-def main : IO Unit := loop (init bufferSize : St) step
+def main : IO Unit := loop ({ h := initH bufferSize } : St) step
 end Driver.Ring
